@@ -172,14 +172,8 @@ theorem C12_prefixes_total (f : Forest) (inv : f.Inv) (node : Nat) (live : f.isL
     root of the tree containing the source element succeeds (`serialises` = no `MissingPrefix`, no
     namespaced PI target), then `to_string(clone_with_prefixes(source))` succeeds — for EVERY
     enumeration `order` of the hash map `inherited_prefixes(source)` (same entries, each prefix
-    once), and every vocabulary `env`.
-
-    Extra hypothesis `hmerge`: consolidation is off, or has never been off — then the clone is
-    literally the source (`C12_equal_strict`).  For a forest with adjacent text nodes and
-    consolidation switched back on the clone has them merged; text nodes play no part in
-    `serialises`, but that case is not proved here. -/
+    once), every vocabulary `env`, and whether or not adjacent text nodes get merged in the clone. -/
 theorem C12_prefixes (env : Env) (f : Forest) (inv : f.Inv)
-    (hmerge : f.everOff = false ∨ f.consolidation = false)
     (node : Nat) (src : HTree) (rest : List HTree) (hpath : f.pathTo node = src :: rest)
     (hel : src.value.isElement = true)
     (hroot : ∀ r ∈ f.roots, HTree.pathTo node r = some (src :: rest) → f.serialises env r.handle = true)
@@ -191,7 +185,7 @@ theorem C12_prefixes (env : Env) (f : Forest) (inv : f.Inv)
   | node hs v Ks =>
     cases v with
     | element name =>
-      exact cloneWithPrefixes_serialises env f inv hmerge node hs name Ks rest hpath
+      exact cloneWithPrefixes_serialises env f inv node hs name Ks rest hpath
         (fun r hr hp => by rw [← serialises_root env f inv r hr]; exact hroot r hr hp) order hord hfun
     | document => simp [HTree.value, Value.isElement] at hel
     | text s => simp [HTree.value, Value.isElement] at hel
